@@ -104,7 +104,7 @@ class _Runaway(BaseException):
     """A dispatch keeps calling listeners without end (e.g. a list mutated while it is iterated)."""
 
 
-CALL_CAP = 3000
+CALL_CAP = 60000  # per top-level dispatch; re-entrant fan-out of a 40-operation history stays far below
 
 
 def _execute_app(sc):
@@ -194,6 +194,7 @@ def execute(sc):
     stack = []         # dispatch ids in progress
     counter = {"dispatch": 0, "seq": 0}
     dispatched_before = {"any": False}
+    mark = {"top": 0}
 
     def order(rs, ev):
         return [r["lid"] for r in sorted((r for r in rs if r["event"] == ev),
@@ -213,7 +214,7 @@ def execute(sc):
 
         def listener(event, event_name, dispatcher):
             calls.append((stack[-1] if stack else -1, lid, event_name))
-            if len(calls) > CALL_CAP:
+            if len(calls) - mark["top"] > CALL_CAP:
                 raise _Runaway()
             log.append(("call", stack[-1] if stack else -1, lid))
             if behaviour == "stop":
@@ -233,6 +234,8 @@ def execute(sc):
         return lid
 
     def do_dispatch(ev):
+        if not stack:
+            mark["top"] = len(calls)
         counter["dispatch"] += 1
         did = counter["dispatch"]
         before = list(regs)
